@@ -1,6 +1,6 @@
 import numpy
-from scipy.interpolate import interp2d,RectBivariateSpline
-#a lookup dict for interp2d order (expressed as 'kind')
+from scipy.interpolate import RectBivariateSpline
+#the spline orders accepted by zoom (formerly the interp2d 'kind')
 INTERP_KIND = {1: 'linear', 3:'cubic', 5:'quintic'}
 
 
@@ -8,7 +8,8 @@ def zoom(array, newSize, order=3):
     """
     A Class to zoom 2-dimensional arrays using interpolation
 
-    Uses the scipy `Interp2d` interpolation routine to zoom into an array. Can cope with real of complex data.
+    Uses the scipy ``RectBivariateSpline`` interpolation routine to zoom into an array (``interp2d`` has been
+    removed from scipy). Can cope with real of complex data.
 
     Parameters:
         array (ndarray): 2-dimensional array to zoom
@@ -29,31 +30,8 @@ def zoom(array, newSize, order=3):
     except (IndexError, TypeError):
         xSize = ySize = newSize
 
-    coordsX = numpy.linspace(0, array.shape[0]-1, xSize)
-    coordsY = numpy.linspace(0, array.shape[1]-1, ySize)
+    return zoom_rbs(array, (xSize, ySize), order)
 
-    #If array is complex must do 2 interpolations
-    if array.dtype==numpy.complex64 or array.dtype==numpy.complex128:
-
-        realInterpObj = interp2d(   numpy.arange(array.shape[0]),
-                numpy.arange(array.shape[1]), array.real, copy=False, 
-                kind=INTERP_KIND[order])
-        imagInterpObj = interp2d(   numpy.arange(array.shape[0]),
-                numpy.arange(array.shape[1]), array.imag, copy=False,
-                kind=INTERP_KIND[order])                 
-        return (realInterpObj(coordsY,coordsX) 
-                            + 1j*imagInterpObj(coordsY,coordsX))
-
-        
-
-    else:
-
-        interpObj = interp2d(   numpy.arange(array.shape[0]),
-                numpy.arange(array.shape[1]), array, copy=False,
-                kind=INTERP_KIND[order])
-
-        #return numpy.flipud(numpy.rot90(interpObj(coordsY,coordsX)))
-        return interpObj(coordsY,coordsX) 
 
 def zoom_rbs(array, newSize, order=3):
     """
